@@ -30,7 +30,7 @@ RULE = (
 )
 ASSUMPTIONS = [
     "semgrep's matcher is a parameter (`detect`); the transformer bodies are not modelled",
-    "declined shapes: the decline branches present in the source (lazy-logging: literal-only concatenation, % in the left literal, non-string operands, mixed prefixes, a piece containing a double quote; with-threading-lock: several with items; re-bound / shadowed names)",
+    "declined shapes: the decline branches present in the source (lazy-logging: literal-only concatenation, % in the left literal, non-string operands, mixed prefixes, a piece containing a double quote or a line break; with-threading-lock: several with items; re-bound / shadowed names)",
 ]
 LEVEL_TEXT = (
     "Lean 4 theorems: a finding located exactly at a node (tool columns = libcst column + 1) selects it (C06_selected_complete, also for "
@@ -83,7 +83,7 @@ def declined(cid: str, text: str) -> bool:
     if shadowed(text):
         return True
     if cid.endswith("lazy-logging"):
-        return True if any(k in text for k in ('" + "', "' + '", '%s" +', "%s' +", 'f"', "f'", 'b"', "r'", 'r"', "u'", '\\"', '"hi"')) else False
+        return True if any(k in text for k in ('" + "', "' + '", '%s" +', "%s' +", 'f"', "f'", 'b"', "r'", 'r"', "u'", '\\"', '"hi"', "'''", '"""')) else False
     if cid.endswith("bad-lock-with-statement"):
         return "," in "".join(l for l in text.splitlines() if l.strip().startswith("with "))
     return False
